@@ -126,6 +126,10 @@ class Prop(BaseProp):
         ops = [self.rand_op(rng) for _ in range(12 if T else 8) if True]
         ops = [o for o in ops if o[0] != "generate"] + [("derive", [0, 1]), ("addr", 1, [0, 1]), ("by_path", "m/0/1"), ("pk_addr", [0])]
         cases.append({"kind": "Hist", "seed": seed, "testnet": False, "ops": ops, "threads": 8})
+        # a legal schedule made deterministic: while generate_children of one "thread" is between two derivation steps
+        # (at its at-th HMAC call) another "thread" runs a complete ckd on the SAME node object
+        for iv, at, other in (((0, 5), 2, 9), ((0, 4), 1, 0), ((3, 8), 3, 3), ((H, H + 3), 2, 1), ((0, 6), 5, 2 ** 31 + 7)):
+            cases.append({"kind": "Preempt", "seed": seed, "path": [84 + H, H, H, 0], "interval": list(iv), "at": at, "other": other})
         cases.append({"kind": "Gen", "seed": seed, "sends": [None, None, 3, None, 0, 2, None], "path": [0]})
         cases.append({"kind": "Gen", "seed": seed, "sends": [None] * 5, "path": [84 + H, H, H, 0]})
         cases.append({"kind": "Gen", "seed": seed, "sends": [10, 1, None], "path": []})
@@ -134,6 +138,44 @@ class Prop(BaseProp):
         return cases
 
     def run_impl(self, case):
+        if case["kind"] == "Preempt":
+            import btc_hd_wallet.bip32 as b32
+
+            def view(kids):
+                return json.dumps([[k.index, k.key.hex(), k.chain_code.hex(), k.depth] for k in kids])
+            shared = self.new_wallet(case["seed"], False)
+            before = do_op(shared, ("root",))
+            node = shared.master.derive_path(list(case["path"]))
+            real = b32.hmac_sha512
+            count, busy = [0], [False]
+
+            def hook(key, msg):
+                count[0] += 1
+                if count[0] == case["at"] and not busy[0]:
+                    busy[0] = True
+                    try:
+                        node.ckd(case["other"])
+                    except Exception:
+                        pass
+                    finally:
+                        busy[0] = False
+                return real(key, msg)
+            b32.hmac_sha512 = hook
+            try:
+                try:
+                    a = view(node.generate_children(tuple(case["interval"])))
+                except Exception as e:
+                    a = "ERR:" + type(e).__name__
+            finally:
+                b32.hmac_sha512 = real
+            after = do_op(shared, ("root",))
+            fw = self.new_wallet(case["seed"], False)
+            try:
+                f_ = view(fw.master.derive_path(list(case["path"])).generate_children(tuple(case["interval"])))
+            except Exception as e:
+                f_ = "ERR:" + type(e).__name__
+            return {"triples": [["generate_children%r preempted at step %d by ckd(%d)" % (tuple(case["interval"]), case["at"], case["other"]), a, f_]],
+                    "before": before, "after": after, "err": False}
         if case["kind"] == "GenA":
             w = self.new_wallet(case["seed"], False)
             nd = w.master.derive_path(list(case["path"]))
@@ -226,5 +268,7 @@ class Prop(BaseProp):
     def sample_repr(self, case, obs):
         if case["kind"] in ("Gen", "GenA"):
             return {"case": case, "impl": obs}
+        if case["kind"] == "Preempt":
+            return {"case": case, "impl": {"disagreements": [t[0] for t in obs["triples"] if t[1] != t[2]]}}
         return {"case": {"kind": "Hist", "threads": case["threads"], "n_ops": len(case["ops"]), "first_ops": case["ops"][:4]},
                 "impl": {"n_answers": len(obs["triples"]), "disagreements": [t[0] for t in obs["triples"] if t[1] != t[2]][:5]}}
